@@ -249,6 +249,7 @@ async fn connection_level(ctx: &Ctx, rng: &mut Rng) {
         let mut layout: Vec<String> = Vec::new();
         let mut uid = h as i128 * 100;
         let mut pending_late: Vec<Vec<u8>> = Vec::new();
+        let mut prev_seq = u64::MAX;
         for m in 0..nmsg {
             uid += 1;
             let control = Val::Tuple(vec![Val::int(2), Val::atom(""), Val::Pid { node: "rust@127.0.0.1".into(), id: 3, serial: 0, creation: 1 }]);
@@ -260,7 +261,7 @@ async fn connection_level(ctx: &Ctx, rng: &mut Rng) {
             let mut cuts: Vec<usize> = (1..nfrag).map(|_| 1 + rng.below(body.len())).collect();
             cuts.sort();
             // ids are used again: mostly the same id for consecutive messages
-            let seq = if rng.chance(3, 4) { id_pool[0] } else { id_pool[1] };
+            let seq = if rng.chance(1, 2) { id_pool[0] } else { id_pool[1] };
             let mut frames: Vec<Vec<u8>> = Vec::new();
             let mut prev = 0usize;
             for f in 0..nfrag {
@@ -272,13 +273,35 @@ async fn connection_level(ctx: &Ctx, rng: &mut Rng) {
                 frames.push(b);
                 prev = end;
             }
-            // late duplicates of the previous message's continuations arrive now (its sequence is complete)
-            for d in pending_late.drain(..) {
-                stream.extend(super::c06::frame(&d));
-                late_duplicates += 1;
-                layout.push("late-duplicate".into());
+            // late duplicates of the previous message's continuations arrive now (its sequence is complete): before this
+            // message starts or - if this message travels under another sequence id - after its first fragment, while
+            // it is incomplete; a frame refused for one sequence must leave the other alone
+            let inside = seq != prev_seq && !pending_late.is_empty() && rng.chance(2, 3);
+            if !inside {
+                for d in pending_late.drain(..) {
+                    stream.extend(super::c06::frame(&d));
+                    late_duplicates += 1;
+                    layout.push("late-duplicate".into());
+                }
             }
+            prev_seq = seq;
             for (f, fr) in frames.iter().enumerate() {
+                if f == 1 && inside {
+                    for d in pending_late.drain(..) {
+                        stream.extend(super::c06::frame(&d));
+                        late_duplicates += 1;
+                        layout.push("late-duplicate-of-the-previous-sequence-inside-this-one".into());
+                    }
+                    // and a continuation nobody announced, for a third sequence
+                    let mut stray = vec![131u8, 70];
+                    stray.extend_from_slice(&0x5717_0000u64.to_be_bytes());
+                    stray.extend_from_slice(&1u64.to_be_bytes());
+                    stray.extend_from_slice(&[1, 2, 3]);
+                    stream.extend(super::c06::frame(&stray));
+                    late_duplicates += 1;
+                    layout.push("stray-continuation-of-a-third-sequence".into());
+                    ctx.count("frames_refused_while_another_sequence_was_open", 1);
+                }
                 stream.extend(super::c06::frame(fr));
                 layout.push(format!("{}{:x}#{}", if f == 0 { "H" } else { "c" }, seq & 0xffff, nfrag - f));
                 // duplicate while the sequence is still incomplete
